@@ -296,7 +296,7 @@ func calcSegmentAvailabilityTime(a *asset, rep *RepData, nr uint32, cfg *Respons
 	endTicks := int64(int(seg.EndTime) + wrapTime + mediaRef)
 	timescale := int64(rep.MediaTimescale)
 	milliSeconds := (endTicks*1000 + timescale - 1) / timescale
-	milliSeconds -= int64(math.Floor(ato * 1000))
+	milliSeconds -= int64(math.Round(ato * 1000))
 	return milliSeconds, nil
 }
 
@@ -703,12 +703,12 @@ func writeChunkedSegment(ctx context.Context, log *slog.Logger, w http.ResponseW
 	// The rest are returned HTTP chunks as time passes.
 	// In general, we should extract all the samples and build a new one with the right fragment duration.
 	// That fragment/chunk duration is segment_duration-availabilityTimeOffset.
-	if a.SegmentDurMS-int(cfg.AvailabilityTimeOffsetS*1000) <= 0 {
+	if a.SegmentDurMS-int(math.Round(cfg.AvailabilityTimeOffsetS*1000)) <= 0 {
 		return badConfigError{fmt.Sprintf("availabilityTimeOffset %.3fs leaves no chunk duration for %dms segments",
 			cfg.AvailabilityTimeOffsetS, a.SegmentDurMS)}
 	}
 	// What the offset leaves of this segment, which need not have the nominal (average) segment duration.
-	chunkDur := int(so.meta.newDur) - int(cfg.AvailabilityTimeOffsetS*1000)*int(rep.MediaTimescale)/1000
+	chunkDur := int(so.meta.newDur) - int(math.Round(cfg.AvailabilityTimeOffsetS*1000))*int(rep.MediaTimescale)/1000
 	if chunkDur <= 0 {
 		chunkDur = 1 // A segment shorter than the offset is available from its start: every sample is a chunk
 	}
